@@ -7,6 +7,7 @@ ID="${1:?property id}"
 TIER="${2:-${VERIF_TIER:-quick}}"
 cd /verif/harness || exit 2
 export CARGO_NET_OFFLINE=true
+export TZ=UTC
 export MALLOC_MMAP_THRESHOLD_=1073741824 MALLOC_TRIM_THRESHOLD_=4294967295
 LOG=$(mktemp /verif/target/build-XXXXXX.log 2>/dev/null || mktemp)
 mkdir -p /verif/target
